@@ -1,5 +1,5 @@
 """C04 — receiver honesty (component level: UserRx + read half; connection level: emitted ack numbers)."""
-from . import common, rxgen, vsock_common, c07
+from . import common, rxgen, vsock_common, c07, concgen
 
 TRUSTED_BASE = common.BASE_TRUSTED + [common.NO_AXIOMS]
 ASSUMPTIONS = [
@@ -52,7 +52,11 @@ def gen_around(rng, line, tier):
 def _vsock_gen(rng, tier):
     # the shared connection generators plus the receive-side scenarios of C07 (out-of-order arrivals,
     # duplicates, FIN before data, zero windows)
-    return vsock_common.gen(rng, tier) + c07.gen_own(rng.fork("rxside"), tier)
+    # ... and the teardown scenarios of C17 (FIN of either side in every closing state, out of sequence, with data lost
+    # before it): an ACK number that jumps over data never received shows there (seeded C04-b)
+    from . import c17
+    return vsock_common.gen(rng, tier) + c07.gen_own(rng.fork("rxside"), tier) + \
+        c17.gen_teardown(rng.fork("teardown"), 250 if tier == "quick" else 6000)
 
 
 # ----------------------------------------------------------------------------- known findings
@@ -91,8 +95,10 @@ def replay_known(kf):
     return out
 
 
-_VS = vsock_common.component("c04_vsock_ack_ok", name="vsock_ack")
+_VS = vsock_common.component("c04_vsock_ack_ok+c04_consumed_honest_ok", name="vsock_ack")
 _VS["gen"] = _vsock_gen
 
 COMPONENTS = [_VS, {"name": "rx", "keep": 2, "gen": rxgen.gen, "gen_around": gen_around, "nontrivial": nontrivial,
-               "classify": classify, "pred": pred}]
+               "classify": classify, "pred": pred},
+              # the atomicity assumption behind the receive-side theorems, tried on the real object by two threads
+              concgen.component_rx()]
